@@ -112,10 +112,29 @@ pub fn parse_resp_frame(data: &[u8]) -> Result<Option<(RespFrame, usize)>> {
     parse_frame(data)
 }
 
+/// Maximum nesting of aggregate frames (arrays, maps, sets). Parsing recurses per level, so an
+/// unbounded depth would let a client overflow the stack with a few kilobytes of `*1\r\n`.
+const MAX_NESTING_DEPTH: usize = 64;
+
+/// An aggregate's capacity is reserved from what has actually been received, never from the
+/// declared element count alone: every element takes at least 3 bytes on the wire.
+fn bounded_capacity(declared: usize, bytes_available: usize) -> usize {
+    declared.min(bytes_available / 3 + 1)
+}
+
 /// Internal frame parser
 fn parse_frame(data: &[u8]) -> Result<Option<(RespFrame, usize)>> {
+    parse_frame_at(data, 0)
+}
+
+/// Internal frame parser at a given aggregate nesting depth
+fn parse_frame_at(data: &[u8], depth: usize) -> Result<Option<(RespFrame, usize)>> {
     if data.is_empty() {
         return Ok(None);
+    }
+    
+    if depth > MAX_NESTING_DEPTH {
+        return Err(FerrousError::Protocol("Frame nesting too deep".into()));
     }
     
     match data[0] {
@@ -123,12 +142,12 @@ fn parse_frame(data: &[u8]) -> Result<Option<(RespFrame, usize)>> {
         b'-' => parse_error(data),
         b':' => parse_integer(data),
         b'$' => parse_bulk_string(data),
-        b'*' => parse_array(data),
+        b'*' => parse_array(data, depth),
         b'_' => parse_null(data),
         b'#' => parse_boolean(data),
         b',' => parse_double(data),
-        b'%' => parse_map(data),
-        b'~' => parse_set(data),
+        b'%' => parse_map(data, depth),
+        b'~' => parse_set(data, depth),
         _ => Err(FerrousError::Protocol(format!(
             "Invalid RESP type byte: {}", data[0] as char
         ))),
@@ -187,7 +206,10 @@ fn parse_bulk_string(data: &[u8]) -> Result<Option<(RespFrame, usize)>> {
     }
     
     let len = len as usize;
-    let total_needed = header_consumed + len + 2; // +2 for \r\n
+    let total_needed = match header_consumed.checked_add(len).and_then(|n| n.checked_add(2)) { // +2 for \r\n
+        Some(n) => n,
+        None => return Err(FerrousError::Protocol("Invalid bulk string length".into())),
+    };
     
     if data.len() < total_needed {
         return Ok(None); // Need more data
@@ -203,7 +225,7 @@ fn parse_bulk_string(data: &[u8]) -> Result<Option<(RespFrame, usize)>> {
 }
 
 /// Parse an array: *2\r\n$3\r\nfoo\r\n$3\r\nbar\r\n
-fn parse_array(data: &[u8]) -> Result<Option<(RespFrame, usize)>> {
+fn parse_array(data: &[u8], depth: usize) -> Result<Option<(RespFrame, usize)>> {
     let (len_line, header_consumed) = match parse_line(data, 1)? {
         Some(v) => v,
         None => return Ok(None),
@@ -223,11 +245,11 @@ fn parse_array(data: &[u8]) -> Result<Option<(RespFrame, usize)>> {
     }
     
     let len = len as usize;
-    let mut elements = Vec::with_capacity(len);
+    let mut elements = Vec::with_capacity(bounded_capacity(len, data.len() - header_consumed));
     let mut total_consumed = header_consumed;
     
     for _ in 0..len {
-        match parse_frame(&data[total_consumed..])? {
+        match parse_frame_at(&data[total_consumed..], depth + 1)? {
             Some((frame, consumed)) => {
                 elements.push(frame);
                 total_consumed += consumed;
@@ -277,7 +299,7 @@ fn parse_double(data: &[u8]) -> Result<Option<(RespFrame, usize)>> {
 }
 
 /// Parse map (RESP3): %2\r\n+key1\r\n:1\r\n+key2\r\n:2\r\n
-fn parse_map(data: &[u8]) -> Result<Option<(RespFrame, usize)>> {
+fn parse_map(data: &[u8], depth: usize) -> Result<Option<(RespFrame, usize)>> {
     let (len_line, header_consumed) = match parse_line(data, 1)? {
         Some(v) => v,
         None => return Ok(None),
@@ -288,12 +310,12 @@ fn parse_map(data: &[u8]) -> Result<Option<(RespFrame, usize)>> {
     let len = len_str.parse::<usize>()
         .map_err(|_| FerrousError::Protocol("Invalid map length".into()))?;
     
-    let mut pairs = Vec::with_capacity(len);
+    let mut pairs = Vec::with_capacity(bounded_capacity(len, data.len() - header_consumed));
     let mut total_consumed = header_consumed;
     
     for _ in 0..len {
         // Parse key
-        let key = match parse_frame(&data[total_consumed..])? {
+        let key = match parse_frame_at(&data[total_consumed..], depth + 1)? {
             Some((frame, consumed)) => {
                 total_consumed += consumed;
                 frame
@@ -302,7 +324,7 @@ fn parse_map(data: &[u8]) -> Result<Option<(RespFrame, usize)>> {
         };
         
         // Parse value
-        let value = match parse_frame(&data[total_consumed..])? {
+        let value = match parse_frame_at(&data[total_consumed..], depth + 1)? {
             Some((frame, consumed)) => {
                 total_consumed += consumed;
                 frame
@@ -317,7 +339,7 @@ fn parse_map(data: &[u8]) -> Result<Option<(RespFrame, usize)>> {
 }
 
 /// Parse set (RESP3): ~2\r\n+elem1\r\n+elem2\r\n
-fn parse_set(data: &[u8]) -> Result<Option<(RespFrame, usize)>> {
+fn parse_set(data: &[u8], depth: usize) -> Result<Option<(RespFrame, usize)>> {
     let (len_line, header_consumed) = match parse_line(data, 1)? {
         Some(v) => v,
         None => return Ok(None),
@@ -328,11 +350,11 @@ fn parse_set(data: &[u8]) -> Result<Option<(RespFrame, usize)>> {
     let len = len_str.parse::<usize>()
         .map_err(|_| FerrousError::Protocol("Invalid set length".into()))?;
     
-    let mut elements = Vec::with_capacity(len);
+    let mut elements = Vec::with_capacity(bounded_capacity(len, data.len() - header_consumed));
     let mut total_consumed = header_consumed;
     
     for _ in 0..len {
-        match parse_frame(&data[total_consumed..])? {
+        match parse_frame_at(&data[total_consumed..], depth + 1)? {
             Some((frame, consumed)) => {
                 elements.push(frame);
                 total_consumed += consumed;
